@@ -129,19 +129,37 @@ def differential(tier='quick', seed=0):
             a = Array(prefix + c, v)
             if a.tobytes() != struct.pack(prefix + '4' + c, *v):
                 fails.append({'call': f'Array({prefix + c!r}, {v}).tobytes()', 'python': "FAILS = True"})
-    # array.array input: accepted only when kind and width match, and read back to the same values
+    # array.array input: accepted only when kind and width match, and read back to the same values -- for every way of naming the
+    # item format (struct code with each prefix, dtype name with each endianness): a format whose byte order differs from the
+    # array's (native) one must either be refused or still read back the array's values
+    n_arr = 0
     for tc in 'bBhHiIlLqQfd':
-        evals += 1
-        src = array.array(tc, [1, 2, 3])
-        try:
-            a = Array('=' + tc, src)
-            ok = a.tolist() == list(src) and a.itemsize == 8 * src.itemsize
-            if not ok:
-                fails.append({'call': f"Array('={tc}', array.array('{tc}', [1, 2, 3]))", 'observed': a.tolist(), 'expected': 'rejected or [1, 2, 3]',
-                              'id': 'array-width', 'python': f"import bitstring, array\ntry:\n    a = bitstring.Array('={tc}', array.array('{tc}', [1, 2, 3]))\n    FAILS = a.tolist() != [1, 2, 3]\nexcept (ValueError, TypeError):\n    FAILS = False"})
-        except (ValueError, TypeError):
-            if struct.calcsize('=' + tc) == src.itemsize:
-                fails.append({'call': f"Array('={tc}', array.array('{tc}', ...))", 'observed': 'rejected although kind and width match', 'python': "FAILS = True"})
+        vals = [1, 2, 3] if tc in 'bB' else ([1.5, -2.0, 3.25] if tc in 'fd' else [1, 258, 3])
+        src = array.array(tc, vals)
+        w = 8 * src.itemsize
+        kind = 'float' if tc in 'fd' else ('int' if tc.islower() else 'uint')
+        fmts = [p + tc for p in ('=', '<', '>', '@', '')] + [f'{kind}{w}', f'{kind}be{w}', f'{kind}le{w}', f'{kind}ne{w}']
+        for fmt in fmts:
+            for how in ('Array(fmt, src)', 'Array(fmt).extend(src)'):
+                evals += 1
+                n_arr += 1
+                try:
+                    if how == 'Array(fmt, src)':
+                        a = Array(fmt, src)
+                    else:
+                        a = Array(fmt)
+                        a.extend(src)
+                except (ValueError, TypeError):
+                    if fmt == '=' + tc and struct.calcsize('=' + tc) == src.itemsize:
+                        fails.append({'call': f"Array('={tc}', array.array('{tc}', ...))", 'observed': 'rejected although kind and width match', 'id': 'array-width',
+                                      'python': "FAILS = True"})
+                    continue
+                if not (a.tolist() == list(src) and a.itemsize == w):
+                    fails.append({'call': f"{how} with fmt = {fmt!r}, src = array.array('{tc}', {vals})", 'observed': a.tolist(), 'expected': f'rejected or {vals}',
+                                  'id': 'array-width',
+                                  'python': f"import bitstring, array\nsrc = array.array('{tc}', {vals!r})\ntry:\n    a = bitstring.Array({fmt!r}, src)\n"
+                                            f"    b = bitstring.Array({fmt!r}); b.extend(src)\n    FAILS = a.tolist() != {vals!r} or b.tolist() != {vals!r}\n"
+                                            "except (ValueError, TypeError):\n    FAILS = False"})
     # le/be/ne relation and byteswap involution on random whole-byte data
     for _ in range(300):
         evals += 1
@@ -234,7 +252,7 @@ def differential(tier='quick', seed=0):
                 'function': 'pack/unpack/Array vs struct/array', 'bound': 'every code x prefix <>= x counts 1..3 x boundary ints / special floats',
                 'evaluations': evals, 'failures': [f for f in fails if f.get('id') != 'array-width'][:3]},
                {'id': 'C18/array_.Array.extend/array.array-input-must-match-kind-and-width', 'qualname': 'array_.Array.extend', 'shape': 'typecodes',
-                'function': 'Array(array.array)', 'bound': '12 typecodes', 'evaluations': 12, 'failures': [f for f in fails if f.get('id') == 'array-width'][:2]},
+                'function': 'Array(array.array) / Array.extend(array.array)', 'bound': '12 typecodes x 9 item formats x 2 routes', 'evaluations': n_arr, 'failures': [f for f in fails if f.get('id') == 'array-width'][:2]},
                {'id': 'C18/utils.REPLACEMENTS_NE/native-prefix-@-uses-native-sizes', 'qualname': 'utils.structparser', 'shape': 'native @',
                 'function': "pack('@x')", 'bound': '13 codes', 'evaluations': 13, 'failures': native[:2]}]
     return {'id': 'C18.differential', 'obligations': [], 'bounded': bounded, 'evaluations': evals, 'summary': f'{evals} differential cases'}
